@@ -26,9 +26,12 @@ def run(c):
         "(answer per RCPT command independent of spelling, per-domain DATA failure, connection fault exactly under a RCPT that follows k accepted ones "
         "of the same connection and is followed by more: 421+close / close / reset / stall in virtual time, on fresh and pooled connections); "
         "recipients ASCII / IDN U-label / A-label / non-ASCII local part over 3 domains, and ONE mailbox spelled several ways (letter case, A-label vs U-label, "
-        "NFC vs NFD) as different recipients of one transaction; ground truth = what the next hop holds in transactions it answered 250; "
-        "LMTP next hop through the real target.lmtp with per-recipient statuses (by position, respelled mailboxes, replies cut off, faults under RCPT); "
-        "pipeline reverse translation with 1-to-N rewrites and rewrite results that are themselves client-supplied recipients (chains, swaps); "
+        "NFC vs NFD) as different recipients of one transaction, and the SAME address string added two or three times in one transaction (exact duplicates, "
+        "adjacent or apart, each occurrence with its own RCPT answer); ground truth = what the next hop holds in transactions it answered 250; "
+        "LMTP next hop through the real target.lmtp with per-recipient statuses (by position, respelled mailboxes, exact duplicates each with its own reply and followed by recipients whose reply differs, replies cut off, faults under RCPT); "
+        "pipeline reverse translation with 1-to-N rewrites and rewrite results that are themselves client-supplied recipients (chains, swaps), "
+        "rewrites whose result differs from the client-supplied address only in spelling (letter case, U-label/A-label domain, NFC/NFD — lower-casing / normalising modifiers, "
+        "alone, inside 1-to-N expansions, next to other spellings of the same mailbox as further client recipients), the client sending one address two or three times; "
         "status keys and values seen by a recording StatusCollector compared with the model; distinct = distinct histories",
         explanation="theorems over all histories/pools/recipient lists; model tied to smtpconn/remote/smtp_downstream by differential runs against scripted servers",
         search=search,
